@@ -146,7 +146,7 @@ func rulesC03(c *Ctx) {
 		c.Check("C03.a", shortFn(nm)+" recurses to the direct parent with the same amount", fn.Decl, rec, "%s no longer calls sq.parent.%s(delta)", nm, shortFn(nm))
 		own := false
 		for _, w := range p.FieldWrites(p.Field("objects.Queue.pending")) {
-			if w.Fn == fn {
+			if p.inFn(w.Fn, fn) {
 				if call, ok := unparen(w.Arg).(*ast.CallExpr); ok && len(call.Args) == 2 && p.recvField(fn, call.Args[0], "objects.Queue.pending") && p.isParam(fn, call.Args[1], 0) {
 					wantAdd := strings.HasSuffix(nm, "incPendingResource")
 					if wantAdd == p.IsCall(call, "resources.Add") && (wantAdd || p.IsCall(call, "resources.SubErrorNegative") || p.IsCall(call, "resources.Sub")) {
